@@ -19,7 +19,7 @@ def neg_struct(mod, name, base, fields, prop, clause, default=None):
     s = struct(mod, name, base, fields, default=default, family="NEG")
     lines = render_struct(s)
     from corpus import imports_of
-    return raw_item(mod, name, lines, prop, clause, extra={"text": "\n".join(lines), "base": base, "imports": sorted(imports_of(s)),
+    return raw_item(mod, name, lines, prop, clause, extra={"text": "\n".join(lines), "base": base, "imports": sorted(imports_of(s)), "model": s,
                                                            "shape": [[f["ranges"], f["ty"], f["array"]] for f in fields]})
 
 
